@@ -763,51 +763,120 @@ fn check_connect5(c: &Connect, out: &Bytes) {
     assert!(r.at_end() && !r.bad);
 }
 
-vharness! {
-    //@ props: C01
-    //@ tier: quick
-    //@ functions: v5::Codec::encodev, EncodeLtd for Connect, Connect::properties_len, encode_property(_default), encoded_property_size(_default), decode::decode_packet, Connect::decode
-    //@ bounds: no will; every bool/Option symbolic; keep-alive, session expiry, receive max, topic alias max, max packet size full width; client id, username, password, auth method, auth data 0..=1 byte each; 0..=1 user property (0..=1-byte strings)
-    //@ unwindset: utf8_is_valid=3 slice_eq=5 expect_lp=5 Connect=5 any_user_props=3 clone=3 decode_variable_length_cursor=6 spec_check_connect_props=11
-    //@ assumes: strings well-formed UTF-8
-    //@ mem: 10  timeout: 1500
-    //@ desc: v5 CONNECT (without will) round trip: flags byte, property ids 0x11 0x15 0x16 0x17 0x19 0x21 0x22 0x26 0x27 and defaults per spec 3.1.2.11
-    fn rt5_connect() unwind(5) {
-        let c = any_connect5::<1>();
-        let codec = Codec::new();
-        let out = match enc5(&codec, Encoded::Packet(Packet::Connect(Box::new(c.clone())))) { Ok(o) => o, Err(_) => { assert!(false); return; } };
-        check_connect5(&c, &out);
-        assert!(dec_body5(&out, 0x10) == Ok(Packet::Connect(Box::new(c.clone()))));
-        vcover!(c.auth_method.is_some() && c.auth_data.is_some() && c.receive_max.is_some() && c.max_packet_size.is_some(), "four optional properties present");
-        vcover!(!c.request_problem_info && c.request_response_info && c.topic_alias_max != 0 && c.session_expiry_interval_secs != 0, "four defaulted properties non-default");
-        vcover!(c.username.is_some() && c.password.is_some(), "username and password");
-    }
+macro_rules! rt5_connect_group {
+    ($name:ident, |$c:ident| $cfg:block, $cov:expr) => {
+        vharness! {
+            fn $name() unwind(5) {
+                let mut $c = Connect::default();
+                $cfg;
+                let $c = $c;
+                let codec = Codec::new();
+                let out = match enc5(&codec, Encoded::Packet(Packet::Connect(Box::new($c.clone())))) { Ok(o) => o, Err(_) => { assert!(false); return; } };
+                check_connect5(&$c, &out);
+                assert!(dec_body5(&out, 0x10) == Ok(Packet::Connect(Box::new($c.clone()))));
+                vcover!($cov, "group fields all present / non-default");
+            }
+        }
+    };
 }
-
-vharness! {
-    //@ props: C01
-    //@ tier: quick
-    //@ functions: v5::Codec::encodev, EncodeLtd for Connect (will part), LastWill::properties_len, decode::decode_packet, Connect::decode, decode_last_will
-    //@ bounds: connect properties all default/absent, no username/password; WILL present with every will property symbolic (delay, expiry full width; content type, response topic, correlation data, topic, message 0..=1 byte; 0..=1 user property); will QoS/retain symbolic
-    //@ unwindset: utf8_is_valid=3 slice_eq=5 expect_lp=5 Connect=5 decode_last_will=9 spec_check_will_props=10 any_user_props=3 clone=3 decode_variable_length_cursor=6 spec_check_connect_props=3
-    //@ assumes: strings well-formed UTF-8
-    //@ mem: 10  timeout: 1500
-    //@ desc: v5 CONNECT with a will: will flag bits, will property ids 0x18 0x01 0x02 0x03 0x08 0x09 0x26, will topic and payload; round trip
-    fn rt5_connect_will() unwind(5) {
-        let mut c = Connect::default();
-        c.clean_start = vk::any_bool();
-        c.keep_alive = vk::any_u16();
-        c.client_id = vh::any_str::<1>();
-        c.last_will = Some(any_last_will5::<1>());
-        let codec = Codec::new();
-        let out = match enc5(&codec, Encoded::Packet(Packet::Connect(Box::new(c.clone())))) { Ok(o) => o, Err(_) => { assert!(false); return; } };
-        check_connect5(&c, &out);
-        assert!(dec_body5(&out, 0x10) == Ok(Packet::Connect(Box::new(c.clone()))));
-        let w = c.last_will.as_ref().unwrap();
-        vcover!(w.will_delay_interval_sec.is_some() && w.correlation_data.is_some() && w.message_expiry_interval.is_some(), "three will properties");
-        vcover!(w.content_type.is_some() && w.is_utf8_payload == Some(false) && w.response_topic.is_some() && w.user_properties.len() == 1, "four more will properties");
-    }
-}
+//@ props: C01
+//@ tier: quick
+//@ functions: v5::Codec::encodev, EncodeLtd for Connect, Connect::properties_len, decode::decode_packet, Connect::decode
+//@ bounds: group 1 symbolic (clean start, keep-alive full width, client id / username / password 0..=1 byte, optional), all other fields default
+//@ unwindset: utf8_is_valid=3 slice_eq=3 expect_lp=5 Connect=3 clone=3 decode_variable_length_cursor=6 spec_check_connect_props=3
+//@ assumes: strings well-formed UTF-8
+//@ mem: 10  timeout: 1200
+//@ desc: v5 CONNECT round trip, fixed part: protocol name/level, flags byte, keep-alive, client id, username, password
+rt5_connect_group!(rt5_connect_g1, |c| {
+    c.clean_start = vk::any_bool();
+    c.keep_alive = vk::any_u16();
+    c.client_id = vh::any_str::<1>();
+    c.username = vh::any_opt_str::<1>();
+    c.password = vh::any_opt_bin::<1>();
+}, c.username.is_some() && c.password.is_some() && c.clean_start);
+//@ props: C01
+//@ tier: quick
+//@ functions: v5::Codec::encodev, EncodeLtd for Connect, encode_property(_default), decode::decode_packet, Connect::decode
+//@ bounds: group 2 symbolic (session expiry full width, auth method / auth data 0..=1 byte optional, request problem info), other fields default
+//@ unwindset: utf8_is_valid=3 slice_eq=3 expect_lp=5 Connect=6 clone=3 decode_variable_length_cursor=6 spec_check_connect_props=6
+//@ assumes: strings well-formed UTF-8
+//@ mem: 10  timeout: 1200
+//@ desc: v5 CONNECT round trip, properties 0x11 0x15 0x16 0x17 (ids and defaults per spec 3.1.2.11)
+rt5_connect_group!(rt5_connect_g2, |c| {
+    c.session_expiry_interval_secs = vk::any_u32();
+    c.auth_method = vh::any_opt_str::<1>();
+    c.auth_data = vh::any_opt_bin::<1>();
+    c.request_problem_info = vk::any_bool();
+}, c.session_expiry_interval_secs != 0 && c.auth_method.is_some() && c.auth_data.is_some() && !c.request_problem_info);
+//@ props: C01
+//@ tier: quick
+//@ functions: v5::Codec::encodev, EncodeLtd for Connect, encode_property(_default), decode::decode_packet, Connect::decode
+//@ bounds: group 3 symbolic (request response info, receive max, topic alias max, max packet size - full width, optional), other fields default
+//@ unwindset: Connect=6 clone=3 decode_variable_length_cursor=6 spec_check_connect_props=6 expect_lp=5 slice_eq=3 utf8_is_valid=3
+//@ mem: 10  timeout: 1200
+//@ desc: v5 CONNECT round trip, properties 0x19 0x21 0x22 0x27
+rt5_connect_group!(rt5_connect_g3, |c| {
+    c.request_response_info = vk::any_bool();
+    c.receive_max = vh::any_opt_nz16();
+    c.topic_alias_max = vk::any_u16();
+    c.max_packet_size = vh::any_opt_nz32();
+}, c.request_response_info && c.receive_max.is_some() && c.topic_alias_max != 0 && c.max_packet_size.is_some());
+//@ props: C01
+//@ tier: quick
+//@ functions: v5::Codec::encodev, EncodeLtd for Connect, Encode for UserProperties, decode::decode_packet, Connect::decode
+//@ bounds: group 4 symbolic (0..=2 user properties with 0..=1-byte strings, session expiry), other fields default
+//@ unwindset: utf8_is_valid=3 slice_eq=3 expect_lp=5 Connect=5 clone=4 decode_variable_length_cursor=6 spec_check_connect_props=5 any_user_props=4 UserProperties=4
+//@ assumes: strings well-formed UTF-8
+//@ mem: 10  timeout: 1200
+//@ desc: v5 CONNECT round trip, user properties (0x26, repeatable, order preserved) next to another property
+rt5_connect_group!(rt5_connect_g4, |c| {
+    c.user_properties = any_user_props::<2, 1>();
+    c.session_expiry_interval_secs = vk::any_u32();
+}, c.user_properties.len() == 2 && c.session_expiry_interval_secs != 0);
+//@ props: C01
+//@ tier: quick
+//@ functions: v5::Codec::encodev, EncodeLtd for Connect (will part), LastWill::properties_len, decode::decode_packet, Connect::decode, decode_last_will
+//@ bounds: will present: QoS/retain symbolic, topic and message 0..=1 byte, will delay (full width) and payload-format flag optional; all will other properties absent
+//@ unwindset: utf8_is_valid=3 slice_eq=3 expect_lp=5 Connect=3 decode_last_will=4 spec_check_will_props=4 clone=3 decode_variable_length_cursor=6 spec_check_connect_props=3
+//@ assumes: strings well-formed UTF-8
+//@ mem: 10  timeout: 1200
+//@ desc: v5 CONNECT with a will, part 1: will flag bits (QoS, retain), will properties 0x18 0x01, will topic and payload
+rt5_connect_group!(rt5_connect_w1, |c| {
+    c.client_id = vh::any_str::<1>();
+    let mut w = LastWill { qos: vh::any_qos(), retain: vk::any_bool(), topic: vh::any_str::<1>(), message: vh::any_bin::<1>(),
+        will_delay_interval_sec: vh::any_opt_u32(), correlation_data: None, message_expiry_interval: None, content_type: None,
+        user_properties: Vec::new(), is_utf8_payload: vh::any_opt_bool(), response_topic: None };
+    let _ = &mut w;
+    c.last_will = Some(w);
+}, c.last_will.as_ref().map_or(false, |w| w.will_delay_interval_sec.is_some() && w.is_utf8_payload == Some(false) && w.retain));
+//@ props: C01
+//@ tier: quick
+//@ functions: v5::Codec::encodev, EncodeLtd for Connect (will part), decode_last_will
+//@ bounds: will present with correlation data, content type (0..=1 byte), message expiry (full width) optional; other will properties absent
+//@ unwindset: utf8_is_valid=3 slice_eq=3 expect_lp=5 Connect=3 decode_last_will=5 spec_check_will_props=5 clone=3 decode_variable_length_cursor=6 spec_check_connect_props=3
+//@ assumes: strings well-formed UTF-8
+//@ mem: 10  timeout: 1200
+//@ desc: v5 CONNECT with a will, part 2: will properties 0x09 0x02 0x03
+rt5_connect_group!(rt5_connect_w2, |c| {
+    let w = LastWill { qos: QoS::AtMostOnce, retain: false, topic: vh::any_str::<1>(), message: Bytes::new(),
+        will_delay_interval_sec: None, correlation_data: vh::any_opt_bin::<1>(), message_expiry_interval: vh::any_opt_nz32(), content_type: vh::any_opt_str::<1>(),
+        user_properties: Vec::new(), is_utf8_payload: None, response_topic: None };
+    c.last_will = Some(w);
+}, c.last_will.as_ref().map_or(false, |w| w.correlation_data.is_some() && w.message_expiry_interval.is_some() && w.content_type.is_some()));
+//@ props: C01
+//@ tier: quick
+//@ functions: v5::Codec::encodev, EncodeLtd for Connect (will part), decode_last_will
+//@ bounds: will present with response topic (0..=1 byte) optional and 0..=2 user properties (0..=1-byte strings); other will properties absent
+//@ unwindset: utf8_is_valid=3 slice_eq=3 expect_lp=5 Connect=3 decode_last_will=5 spec_check_will_props=5 clone=4 decode_variable_length_cursor=6 spec_check_connect_props=3 any_user_props=4 UserProperties=4
+//@ assumes: strings well-formed UTF-8
+//@ mem: 10  timeout: 1200
+//@ desc: v5 CONNECT with a will, part 3: will properties 0x08 0x26
+rt5_connect_group!(rt5_connect_w3, |c| {
+    let w = LastWill { qos: QoS::AtMostOnce, retain: false, topic: vh::any_str::<1>(), message: Bytes::new(),
+        will_delay_interval_sec: None, correlation_data: None, message_expiry_interval: None, content_type: None,
+        user_properties: any_user_props::<2, 1>(), is_utf8_payload: None, response_topic: vh::any_opt_str::<1>() };
+    c.last_will = Some(w);
+}, c.last_will.as_ref().map_or(false, |w| w.response_topic.is_some() && w.user_properties.len() == 2));
 
 // ---- CONNACK ------------------------------------------------------------------------------------
 /// 3.2.2.3 connack properties (id: type, default): 0x11 u32; 0x21 u16 (65535, 0 illegal); 0x24 byte
@@ -877,63 +946,122 @@ fn check_connack5(a: &ConnectAck, num: u8, out: &Bytes) {
     assert!(r.at_end() && !r.bad);
 }
 
-vharness! {
-    //@ props: C01
-    //@ tier: quick
-    //@ functions: v5::Codec::encodev, EncodeLtd for ConnectAck, encode_property(_default), encode_opt_props, encoded_size_opt_props, reduce_limit, var_int_len_from_size, decode::decode_packet, ConnectAck::decode
-    //@ bounds: the NUMERIC and FLAG properties: session present, all 22 reason codes, session expiry, receive max, max QoS (0..=1: QoS 2 is the absent default), retain/wildcard/sub-id/shared availability, max packet size (any u32 incl. 0 - the type admits it), topic alias max, server keep-alive - all symbolic, full width; string properties absent
-    //@ unwindset: ConnectAck=5 spec_check_connack_props=14 decode_variable_length_cursor=6 clone=3
-    //@ mem: 10  timeout: 1500
-    //@ desc: v5 CONNACK round trip, numeric half: property ids 0x11 0x21 0x24 0x25 0x27 0x22 0x28 0x29 0x2A 0x13 and their defaults per spec 3.2.2.3
-    fn rt5_connack_num() unwind(5) {
-        let (reason_code, num) = any_connack_reason();
-        let mut a = ConnectAck::default();
-        a.session_present = vk::any_bool();
-        a.reason_code = reason_code;
-        a.session_expiry_interval_secs = vh::any_opt_u32();
-        a.receive_max = vh::any_nz16();
-        a.max_qos = vh::any_qos();
-        a.max_packet_size = vh::any_opt_u32();
-        a.topic_alias_max = vk::any_u16();
-        a.retain_available = vk::any_bool();
-        a.wildcard_subscription_available = vk::any_bool();
-        a.subscription_identifiers_available = vk::any_bool();
-        a.shared_subscription_available = vk::any_bool();
-        a.server_keepalive_sec = vh::any_opt_u16();
-        let codec = Codec::new();
-        let out = match enc5(&codec, Encoded::Packet(Packet::ConnectAck(Box::new(a.clone())))) { Ok(o) => o, Err(_) => { assert!(false); return; } };
-        check_connack5(&a, num, &out);
-        assert!(dec_body5(&out, 0x20) == Ok(Packet::ConnectAck(Box::new(a.clone()))));
-        vcover!(a.max_qos == QoS::AtMostOnce && !a.retain_available && !a.wildcard_subscription_available && !a.subscription_identifiers_available && !a.shared_subscription_available, "all capability flags off");
-        vcover!(a.session_expiry_interval_secs.is_some() && a.max_packet_size.is_some() && a.server_keepalive_sec.is_some() && a.receive_max.get() == 1, "numeric options present");
-    }
+macro_rules! rt5_connack_group {
+    ($name:ident, |$a:ident| $cfg:block, $cov:expr) => {
+        vharness! {
+            fn $name() unwind(5) {
+                let (reason_code, num) = any_connack_reason();
+                let mut $a = ConnectAck::default();
+                $a.reason_code = reason_code;
+                $cfg;
+                let $a = $a;
+                let codec = Codec::new();
+                let out = match enc5(&codec, Encoded::Packet(Packet::ConnectAck(Box::new($a.clone())))) { Ok(o) => o, Err(_) => { assert!(false); return; } };
+                check_connack5(&$a, num, &out);
+                assert!(dec_body5(&out, 0x20) == Ok(Packet::ConnectAck(Box::new($a.clone()))));
+                vcover!($cov, "group fields all present / non-default");
+            }
+        }
+    };
 }
+//@ props: C01
+//@ tier: quick
+//@ functions: v5::Codec::encodev, EncodeLtd for ConnectAck, encode_property(_default), var_int_len_from_size, decode::decode_packet, ConnectAck::decode
+//@ bounds: all 22 reason codes; group 1 symbolic (session present, session expiry, receive max, max QoS - full width), other properties default
+//@ unwindset: ConnectAck=5 spec_check_connack_props=5 decode_variable_length_cursor=6 clone=3 expect_lp=3 slice_eq=3 utf8_is_valid=3
+//@ mem: 10  timeout: 1200
+//@ desc: v5 CONNACK round trip: flags, reason code values per spec table 3.2.2.2, properties 0x11 0x21 0x24 and their defaults
+rt5_connack_group!(rt5_connack_g1, |a| {
+    a.session_present = vk::any_bool();
+    a.session_expiry_interval_secs = vh::any_opt_u32();
+    a.receive_max = vh::any_nz16();
+    a.max_qos = vh::any_qos();
+}, a.session_expiry_interval_secs.is_some() && a.receive_max.get() != 65535 && a.max_qos == QoS::AtMostOnce);
+//@ props: C01
+//@ tier: quick
+//@ functions: v5::Codec::encodev, EncodeLtd for ConnectAck, decode::decode_packet, ConnectAck::decode
+//@ bounds: group 2 symbolic (retain available, max packet size incl. 0, topic alias max, wildcard / subscription-id availability), other properties default
+//@ unwindset: ConnectAck=7 spec_check_connack_props=7 decode_variable_length_cursor=6 clone=3 expect_lp=3 slice_eq=3 utf8_is_valid=3
+//@ mem: 10  timeout: 1200
+//@ desc: v5 CONNACK round trip: properties 0x25 0x27 0x22 0x28 0x29 and their defaults
+rt5_connack_group!(rt5_connack_g2, |a| {
+    a.retain_available = vk::any_bool();
+    a.max_packet_size = vh::any_opt_u32();
+    a.topic_alias_max = vk::any_u16();
+    a.wildcard_subscription_available = vk::any_bool();
+    a.subscription_identifiers_available = vk::any_bool();
+}, !a.retain_available && a.max_packet_size.is_some() && a.topic_alias_max != 0 && !a.wildcard_subscription_available && !a.subscription_identifiers_available);
+//@ props: C01
+//@ tier: quick
+//@ functions: v5::Codec::encodev, EncodeLtd for ConnectAck, decode::decode_packet, ConnectAck::decode
+//@ bounds: group 3 symbolic (shared subscription availability, server keep-alive, assigned client id and response info 0..=1 byte optional)
+//@ unwindset: ConnectAck=6 spec_check_connack_props=6 decode_variable_length_cursor=6 clone=3 expect_lp=3 slice_eq=3 utf8_is_valid=3
+//@ assumes: strings well-formed UTF-8
+//@ mem: 10  timeout: 1200
+//@ desc: v5 CONNACK round trip: properties 0x2A 0x13 0x12 0x1A
+rt5_connack_group!(rt5_connack_g3, |a| {
+    a.shared_subscription_available = vk::any_bool();
+    a.server_keepalive_sec = vh::any_opt_u16();
+    a.assigned_client_id = vh::any_opt_str::<1>();
+    a.response_info = vh::any_opt_str::<1>();
+}, !a.shared_subscription_available && a.server_keepalive_sec.is_some() && a.assigned_client_id.is_some() && a.response_info.is_some());
+//@ props: C01
+//@ tier: quick
+//@ functions: v5::Codec::encodev, EncodeLtd for ConnectAck, decode::decode_packet, ConnectAck::decode
+//@ bounds: group 4 symbolic (server reference, auth method, auth data 0..=1 byte, optional)
+//@ unwindset: ConnectAck=5 spec_check_connack_props=5 decode_variable_length_cursor=6 clone=3 expect_lp=3 slice_eq=3 utf8_is_valid=3
+//@ assumes: strings well-formed UTF-8
+//@ mem: 10  timeout: 1200
+//@ desc: v5 CONNACK round trip: properties 0x1C 0x15 0x16
+rt5_connack_group!(rt5_connack_g4, |a| {
+    a.server_reference = vh::any_opt_str::<1>();
+    a.auth_method = vh::any_opt_str::<1>();
+    a.auth_data = vh::any_opt_bin::<1>();
+}, a.server_reference.is_some() && a.auth_method.is_some() && a.auth_data.is_some());
+//@ props: C01
+//@ tier: quick
+//@ functions: v5::Codec::encodev, EncodeLtd for ConnectAck, encode_opt_props, encoded_size_opt_props, reduce_limit, decode::decode_packet, ConnectAck::decode
+//@ bounds: group 5 symbolic (reason string 0..=1 byte optional, 0..=2 user properties with 0..=1-byte strings, server keep-alive)
+//@ unwindset: ConnectAck=6 spec_check_connack_props=6 decode_variable_length_cursor=6 clone=4 expect_lp=3 slice_eq=3 utf8_is_valid=3 any_user_props=4 encode_opt_props=4 encoded_size_opt_props=4
+//@ assumes: strings well-formed UTF-8
+//@ mem: 10  timeout: 1200
+//@ desc: v5 CONNACK round trip: diagnostics 0x1F 0x26 next to another property
+rt5_connack_group!(rt5_connack_g5, |a| {
+    a.reason_string = vh::any_opt_str::<1>();
+    a.user_properties = any_user_props::<2, 1>();
+    a.server_keepalive_sec = vh::any_opt_u16();
+}, a.reason_string.is_some() && a.user_properties.len() == 2 && a.server_keepalive_sec.is_some());
 
+// ---- C09 integer kernels of the size arithmetic (full width) --------------------------------------
 vharness! {
-    //@ props: C01
+    //@ props: C09 C01
     //@ tier: quick
-    //@ functions: v5::Codec::encodev, EncodeLtd for ConnectAck, encode_property, encode_opt_props, encoded_size_opt_props, decode::decode_packet, ConnectAck::decode
-    //@ bounds: the STRING properties: assigned client id, response info, server reference, auth method, auth data, reason string each optional 0..=1 byte; 0..=1 user property (0..=1-byte strings); numeric properties at their defaults; reason code symbolic
-    //@ unwindset: utf8_is_valid=3 slice_eq=3 expect_lp=3 ConnectAck=9 spec_check_connack_props=9 any_user_props=3 encode_opt_props=3 encoded_size_opt_props=3 clone=3 decode_variable_length_cursor=6
-    //@ assumes: strings well-formed UTF-8
-    //@ mem: 10  timeout: 1500
-    //@ desc: v5 CONNACK round trip, string half: property ids 0x12 0x1A 0x1C 0x15 0x16 0x1F 0x26
-    fn rt5_connack_str() unwind(5) {
-        let (reason_code, num) = any_connack_reason();
-        let mut a = ConnectAck::default();
-        a.reason_code = reason_code;
-        a.assigned_client_id = vh::any_opt_str::<1>();
-        a.response_info = vh::any_opt_str::<1>();
-        a.server_reference = vh::any_opt_str::<1>();
-        a.auth_method = vh::any_opt_str::<1>();
-        a.auth_data = vh::any_opt_bin::<1>();
-        a.reason_string = vh::any_opt_str::<1>();
-        a.user_properties = any_user_props::<1, 1>();
+    //@ functions: v5 encode::{var_int_len, var_int_len_u32, var_int_len_from_size, reduce_limit}, v5::Codec::set_max_outbound_size
+    //@ bounds: v, n: the whole variable-byte-integer domain 0..=268435455; limit: u32 and reduction: usize full width; size: u32 full width - decided by SAT, not enumerated
+    //@ desc: var_int_len(_u32) equal the specification's length table; var_int_len_from_size inverts n + len(n) for every n; reduce_limit is a saturating subtraction; set_max_outbound_size subtracts the 5 header bytes above 5
+    fn lim5_kernels() unwind(3) {
+        let v = vk::any_u32();
+        vk::assume(v <= 268_435_455);
+        assert!(encode::var_int_len_u32(v) as usize == vh::spec_varint_len(v));
+        assert!(encode::var_int_len(v as usize) as usize == vh::spec_varint_len(v));
+        // size -> length inversion used by every property-list emitter
+        let total = v + vh::spec_varint_len(v) as u32;
+        assert!(encode::var_int_len_from_size(total) == v);
+        let limit = vk::any_u32();
+        let red = vk::any_usize();
+        let want = if red as u128 > limit as u128 { 0 } else { limit - red as u32 };
+        assert!(encode::reduce_limit(limit, red) == want);
         let codec = Codec::new();
-        let out = match enc5(&codec, Encoded::Packet(Packet::ConnectAck(Box::new(a.clone())))) { Ok(o) => o, Err(_) => { assert!(false); return; } };
-        check_connack5(&a, num, &out);
-        assert!(dec_body5(&out, 0x20) == Ok(Packet::ConnectAck(Box::new(a.clone()))));
-        vcover!(a.assigned_client_id.is_some() && a.response_info.is_some() && a.server_reference.is_some(), "three string properties");
-        vcover!(a.auth_method.is_some() && a.auth_data.is_some() && a.reason_string.is_some() && a.user_properties.len() == 1, "auth + diagnostics");
+        let s = vk::any_u32();
+        codec.set_max_outbound_size(s);
+        assert!(codec.max_outbound_size() == if s > 5 { s - 5 } else { s });
+        vcover!(v == 127, "127");
+        vcover!(v == 128, "128");
+        vcover!(v == 16_383, "16383");
+        vcover!(v == 16_384, "16384");
+        vcover!(v == 2_097_151, "2097151");
+        vcover!(v == 2_097_152, "2097152");
+        vcover!(v == 268_435_455, "268435455");
+        vcover!(red as u128 > limit as u128, "saturating");
     }
 }
